@@ -39,6 +39,8 @@ func roleOf(point string) string {
 		return "tqworker"
 	case point == "conn.callback":
 		return "conncb"
+	case point == "badger.write":
+		return "dbwriter"
 	case point == "Shutdown" || strings.HasPrefix(point, "close."):
 		return "selfshutdown"
 	}
